@@ -317,6 +317,7 @@ def _work(i):
     cands = []
     seen = set()
     replayed = 0
+    battery_memo = {}
     t_replay = time.time()
     for c in sub.candidates:
         key = json.dumps(c.facts, sort_keys=True, default=str)
@@ -335,6 +336,22 @@ def _work(i):
             continue
         replayed += 1
         last = None
+        # candidates of one obligation usually share their battery: replay a given (scenario list, judge) once
+        bkey = (tuple(id(x) for x in c.scenarios), id(c.judge))
+        if bkey in battery_memo:
+            hit = battery_memo[bkey]
+            if hit is not None:
+                d.update(hit)
+                ctx.rec["status"] = "violated"
+                cands.append(d)
+                continue
+            if c.assumed:
+                ctx.rec["assumed_unreachable"].append({"site": c.label[:120], "invariant": c.assumed, "replayed": len(c.scenarios)})
+                continue
+            d["why"] = "counterexample did not reproduce natively (same scenarios as an earlier candidate of this obligation)"
+            cands.append(d)
+            replayed -= 1
+            continue
         for sc in c.scenarios:
             try:
                 obsv = replay_mod.run(sc)
@@ -348,6 +365,8 @@ def _work(i):
             if why:
                 d.update(reproduced=True, why=why, scenario=sc.to_json(), observed={p: o.text for p, o in obsv.items()})
                 break
+        battery_memo[bkey] = ({"reproduced": True, "why": d["why"], "scenario": d["scenario"], "observed": d["observed"]}
+                              if d["reproduced"] else None)
         if not d["reproduced"]:
             if c.assumed:
                 # on the committed assumed-unreachable list and confirmed not to reproduce: an assumption, not a result
